@@ -2,6 +2,9 @@
 //!
 //! Universe: the full table binding form × assignment operator × assignment target (× position of the
 //! assignment: directly in the binding's scope, or one block deeper; thorough only).
+//! The lambda-capture forms vary the distance between the lambda and the declaration it captures: same block,
+//! lambda inside an if / while / for / match-arm block of the declaring function body, a parameter of the
+//! enclosing function, a lambda nested in another lambda (declaration two levels out).
 //! Every program is compiled on its own, because a diagnostic is a possible outcome of most cells.
 
 use super::features_util::{Want, judge};
@@ -29,8 +32,17 @@ enum Form {
     CaptureVar,
     CaptureVarAssignOnly,
     TaskCapture,
+    /// the lambda sits in a block one scope deeper than the function body that declares the var
+    CaptureVarLambdaInIf,
+    CaptureVarLambdaInWhile,
+    CaptureVarLambdaInFor,
+    CaptureVarLambdaInArm,
+    /// the assigned name is a parameter of the function that contains the lambda
+    CaptureParam,
+    /// lambda inside a lambda, the var is declared two levels out
+    CaptureVarNestedLambda,
 }
-const FORMS: [Form; 15] = [
+const FORMS: [Form; 21] = [
     Form::Let,
     Form::Var,
     Form::LetTuple,
@@ -46,6 +58,12 @@ const FORMS: [Form; 15] = [
     Form::CaptureVar,
     Form::CaptureVarAssignOnly,
     Form::TaskCapture,
+    Form::CaptureVarLambdaInIf,
+    Form::CaptureVarLambdaInWhile,
+    Form::CaptureVarLambdaInFor,
+    Form::CaptureVarLambdaInArm,
+    Form::CaptureParam,
+    Form::CaptureVarNestedLambda,
 ];
 impl Form {
     fn tag(self) -> &'static str {
@@ -65,12 +83,24 @@ impl Form {
             Form::CaptureVar => "lambda-capture-of-var",
             Form::CaptureVarAssignOnly => "lambda-capture-of-var(assignment-is-its-only-mention)",
             Form::TaskCapture => "task-capture-of-var",
+            Form::CaptureVarLambdaInIf => "lambda-in-if-block-capture-of-function-body-var",
+            Form::CaptureVarLambdaInWhile => "lambda-in-while-body-capture-of-function-body-var",
+            Form::CaptureVarLambdaInFor => "lambda-in-for-body-capture-of-function-body-var",
+            Form::CaptureVarLambdaInArm => "lambda-in-match-arm-capture-of-function-body-var",
+            Form::CaptureParam => "lambda-capture-of-enclosing-function-parameter",
+            Form::CaptureVarNestedLambda => "nested-lambda-capture-of-var-two-levels-out",
         }
     }
     /// what the statement demands when the *variable itself* is the target
     fn rule(self) -> Rule {
         match self {
             Form::Let | Form::LetTuple | Form::LetStruct | Form::CaptureLet | Form::CaptureVar | Form::CaptureVarAssignOnly => Rule::MustReject,
+            Form::CaptureVarLambdaInIf
+            | Form::CaptureVarLambdaInWhile
+            | Form::CaptureVarLambdaInFor
+            | Form::CaptureVarLambdaInArm
+            | Form::CaptureParam
+            | Form::CaptureVarNestedLambda => Rule::MustReject,
             Form::Var | Form::VarTuple => Rule::MustAccept,
             _ => Rule::Either,
         }
@@ -190,6 +220,19 @@ impl Cell {
             Form::CaptureLet => body = format!("let x = {init}\nlet lam = () -> {{\n{a}\n{obs}\n}}\nlam()\n{obs}"),
             Form::CaptureVar => body = format!("var x = {init}\nlet lam = () -> {{\n{a}\n{obs}\n}}\nlam()\n{obs}"),
             Form::CaptureVarAssignOnly => body = format!("var x = {init}\nlet lam = () -> {{\n{a}\n}}\nlam()\n{obs}"),
+            Form::CaptureVarLambdaInIf => body = format!("var x = {init}\nif true {{\nlet lam = () -> {{\n{a}\n{obs}\n}}\nlam()\n}}\n{obs}"),
+            Form::CaptureVarLambdaInWhile => {
+                body = format!("var x = {init}\nvar again = true\nwhile again {{\nagain = false\nlet lam = () -> {{\n{a}\n{obs}\n}}\nlam()\n}}\n{obs}")
+            }
+            Form::CaptureVarLambdaInFor => body = format!("var x = {init}\nfor it in [0] {{\nlet lam = () -> {{\n{a}\n{obs}\n}}\nlam()\n}}\n{obs}"),
+            Form::CaptureVarLambdaInArm => body = format!("var x = {init}\nmatch 0 {{\n_ -> {{\nlet lam = () -> {{\n{a}\n{obs}\n}}\nlam()\n}}\n}}\n{obs}"),
+            Form::CaptureParam => {
+                decls.push(format!("fn fq(x: {t}) -> void {{\nlet lam = () -> {{\n{a}\n{obs}\n}}\nlam()\n{obs}\n}}"));
+                body = format!("fq({init})");
+            }
+            Form::CaptureVarNestedLambda => {
+                body = format!("var x = {init}\nlet outer = () -> {{\nlet inner = () -> {{\n{a}\n{obs}\n}}\ninner()\n}}\nouter()\n{obs}")
+            }
             Form::TaskCapture => {
                 // top-level program (tasks inside functions are a different, known defect: not this property)
                 decls.push(format!(
@@ -205,7 +248,14 @@ impl Cell {
     fn want(&self) -> Want {
         let n = new_value(OPS[self.op]);
         let accepted: Vec<i64> = match self.form {
-            Form::CaptureLet | Form::CaptureVar => vec![n, n], // only reachable for field / element targets (shared object)
+            Form::CaptureLet
+            | Form::CaptureVar
+            | Form::CaptureVarLambdaInIf
+            | Form::CaptureVarLambdaInWhile
+            | Form::CaptureVarLambdaInFor
+            | Form::CaptureVarLambdaInArm
+            | Form::CaptureParam
+            | Form::CaptureVarNestedLambda => vec![n, n], // only reachable for field / element targets (shared object)
             Form::CaptureVarAssignOnly => vec![n],
             Form::TaskCapture => vec![n, OLD], // the task works on its own copy
             _ => vec![n],
@@ -248,8 +298,8 @@ impl Prop for C20 {
         cells(tier).len().div_ceil(PER_UNIT)
     }
     fn expected_evaluations(&self, tier: Tier) -> Option<u64> {
-        // 15 forms × 3 targets × 6 operators × positions
-        Some(15 * 3 * 6 * tier.pick(1, 2))
+        // forms × 3 targets × 6 operators × positions
+        Some(FORMS.len() as u64 * 3 * 6 * tier.pick(1, 2))
     }
     fn run_unit(&self, tier: Tier, unit: usize, out: &mut UnitOut) {
         let all = cells(tier);
@@ -279,9 +329,11 @@ impl Prop for C20 {
     fn rule(&self, tier: Tier) -> String {
         format!(
             "full table: binding form {{let, var, let (x,_) tuple destructuring, let St(x,_) struct destructuring, var (x,_) destructuring, for variable, function parameter, lambda parameter, \
-             match binding, match variant-payload binding, or-pattern binding, lambda capture of a let, lambda capture of a var, lambda capture of a var mentioned only on the left-hand side of the assignment, task capture of a var}} \
+             match binding, match variant-payload binding, or-pattern binding, lambda capture of a let, lambda capture of a var, lambda capture of a var mentioned only on the left-hand side of the assignment, task capture of a var, \
+             lambda written inside an if block / while body / for body / match-arm block capturing a var of the enclosing function body, lambda capturing a parameter of the enclosing function, \
+             lambda inside a lambda capturing a var declared two levels out}} \
              × operator {{= += -= *= /= %=}} × target {{the variable (int 17), field `.fa` of the struct it holds, element `[0]` of the array it holds}} × position {:?}; right-hand side 3, \
-             the new value is emitted inside the binding's scope (and after the lambda/task for captures). Oracle: variable target — let forms and lambda captures must be rejected with a diagnostic, \
+             the new value is emitted inside the binding's scope (and after the lambda/task for captures). Oracle: variable target — let forms and lambda captures (whatever the distance between the lambda and the declaration) must be rejected with a diagnostic, \
              var forms must be accepted with the new value, every other form is rejected or accepted with the new value (task: the task's copy changes, the outer variable keeps 17); \
              field / element targets — accepted for every binding form, the shared object shows the new value (a task changes its own deep copy only). Never a compiler panic or VM fault. \
              Each program is compiled on its own. Every cell is non-trivial.",
